@@ -88,13 +88,16 @@ LeafFilters(c, o) == /\ InWindow(c.notAfter, o.start, o.limit)
                      /\ c.exts \cap o.rejExts = {}
 
 (* ---------- admission ---------- *)
-\* what chain validation decides (ctfe.ValidateChain)
-ValidateOK(ch, T, o) == ChainOK(ch, T) /\ LeafFilters(ch[1], o)
 Endpoints == {"add-chain", "add-pre-chain"}
-\* what an endpoint decides
-Admit(ch, T, o, endpoint) == /\ ValidateOK(ch, T, o)
-                             /\ Kind(ch[1]) # "malformed"
-                             /\ (Kind(ch[1]) = "precert") = (endpoint = "add-pre-chain")
+\* The verdicts as functions of "is the chain in order" (so that a model checker evaluates ChainOK once per chain):
+\* what chain validation decides (ctfe.ValidateChain) ...
+ValidateWith(chainOK, leaf, o) == chainOK /\ LeafFilters(leaf, o)
+\* ... and what an endpoint decides
+AdmitWith(chainOK, leaf, o, endpoint) == /\ ValidateWith(chainOK, leaf, o)
+                                         /\ Kind(leaf) # "malformed"
+                                         /\ (Kind(leaf) = "precert") = (endpoint = "add-pre-chain")
+ValidateOK(ch, T, o) == ValidateWith(ChainOK(ch, T), ch[1], o)
+Admit(ch, T, o, endpoint) == AdmitWith(ChainOK(ch, T), ch[1], o, endpoint)
 
 (* ---------- laws of the model ---------- *)
 PathLaw(ch, T) == ChainOK(ch, T) =>
